@@ -192,6 +192,17 @@ def dsShampooUpdate [Add α] [Mul α] [Div α] [OfNat α 0] [OfNat α 1] (sqrt :
 def finalScale [Mul α] [Neg α] [OfNat α 1] (mm : α) (v : List α) : List α :=
   v.map (fun x => -1 * mm * x)
 
+/-- The wrapper of `_transform_grad` around the grafting optimizer's step `s`, which is OPAQUE here (any vector: a
+closed-form step below, or one this model does not describe): lr coupling, skip branch, norm transplant, warm-up
+selection, final scaling (`beta1 = 0`, `weight_decay = 0`). -/
+def dsApplyGraft [Add α] [Mul α] [Sub α] [Div α] [Neg α] [OfNat α 0] [OfNat α 1] (sqrt : α → α)
+    (c : DSConfig α) (step : Nat) (skip : Bool) (s precond : List α) : List α :=
+  let graft := scale (precondMultiplier c) s
+  let p := dsPrecondGrad skip graft precond
+  let shampoo := dsShampooUpdate sqrt c graft p
+  let mom := blend (runShampoo step c.start) shampoo graft
+  finalScale (momentumMultiplier c) mom
+
 /-- One call of `_transform_grad` for one parameter with `beta1 = 0`, `weight_decay = 0`.
 `precond` is the preconditioned gradient (whatever the representation of the preconditioners);
 `skip` says the parameter is excluded from preconditioning. Returns (update, new diagonal statistics). -/
@@ -199,11 +210,7 @@ def dsTransform [Add α] [Mul α] [Sub α] [Div α] [Neg α] [LT α] [DecidableL
     [OfNat α 0] [OfNat α 1] (sqrt : α → α) (natCast : Nat → α) (c : DSConfig α)
     (step : Nat) (skip : Bool) (g acc precond : List α) : List α × List α :=
   let r := dsGraftStep sqrt natCast c g acc
-  let graft := scale (precondMultiplier c) r.1
-  let p := dsPrecondGrad skip graft precond
-  let shampoo := dsShampooUpdate sqrt c graft p
-  let mom := blend (runShampoo step c.start) shampoo graft
-  (finalScale (momentumMultiplier c) mom, r.2)
+  (dsApplyGraft sqrt c step skip r.1 precond, r.2)
 
 /-! #### Tearfree -/
 
@@ -237,6 +244,12 @@ def tfGraftStep [Add α] [Mul α] [Sub α] [Div α] [BEq α] [OfNat α 1] (sqrt 
   | .sgd => (g, acc)
   | .rmsprop => tfRmspropStep sqrt decay eps acc g
 
+/-- The wrapper of `_graft_with` + `optax.scale(-lr)` around the graft optimizer's step `s`, OPAQUE here (SGD,
+RMSProp, or optax's ADAFACTOR which this model does not describe), against the second-order update `b`. -/
+def tfApplyGraft [Add α] [Mul α] [Div α] [Neg α] [LT α] [DecidableLT α] [OfNat α 0] [OfNat α 1]
+    (sqrt : α → α) (lr : α) (count start : Nat) (masked : Bool) (s b : List α) : List α :=
+  tfFinal lr (tfMaybeGraft sqrt count start masked s b)
+
 /-- One update of `tearfree(lr, options)` for one leaf with momentum and weight decay off
 (`momentum.apply` is then the identity): graft step, `maybe_graft` against the second-order update `b`
 (whatever produced it), `optax.scale(-lr)`. Returns (update, new graft accumulator). -/
@@ -244,7 +257,7 @@ def tfTransform [Add α] [Mul α] [Sub α] [Div α] [Neg α] [LT α] [DecidableL
     [OfNat α 0] [OfNat α 1] (sqrt : α → α) (gt : TFGraftType) (decay eps lr : α)
     (count start : Nat) (masked : Bool) (g acc b : List α) : List α × List α :=
   let r := tfGraftStep sqrt gt decay eps acc g
-  (tfFinal lr (tfMaybeGraft sqrt count start masked r.1 b), r.2)
+  (tfApplyGraft sqrt lr count start masked r.1 b, r.2)
 
 end Lists
 
